@@ -248,9 +248,7 @@ static RunOut run(const Prog &p, const std::vector<Act> &sched, bool want_text) 
     g.nrt = 0; g.NR = p.nr; g.sent = g.nrecv = 0; g.holders = 0; g.acq = g.rel = 0; g.init = p.param; g.any_logic = p.param != 0;
     for (int i = 0; i < MAXR; i++) { g.R[i] = RInfo(); g.bposted[i] = false; }
     g.cwaiter = -1; g.cpending = 0; g.csat = false; g.mainmask = 0; g.viols.clear(); g.trace.clear();
-    for (int r = 0; r < p.nr; r++) spawn(p.s[r]);
-    int npass = 0; bool cleaned = false;
-    auto pass = [&] { shm->phase = PH_PASS; loop->runNext([] {}); loop->runLoop(event::Loop::Mode::kOnce); npass++; shm->transitions++; g.trace.push_back(0xff000000u); if (quiescent()) qcheck(); else model_check(); };
+    int npass = 0, k = 0; size_t ai = 0; bool cleaned = false, first = true, tail = false;
     auto cleanup = [&] {
       shm->phase = PH_CLEANUP;
       unsigned must_die = 0;
@@ -264,19 +262,34 @@ static RunOut run(const Prog &p, const std::vector<Act> &sched, bool want_text) 
       if (!sch.d_->routine_cabinet.empty()) viol("cleanup-left-routines-registered");
       model_check();
     };
-    for (auto &a : sched) {
-      if (a.k == A_PASS) { pass(); continue; }
-      shm->phase = PH_ACTION; shm->transitions++;
-      if (a.k == A_RESUME) { g.mainmask |= 1; if (g.R[a.r].created) sch.resume(g.R[a.r].tok); }
-      else if (a.k == A_CANCEL) { g.mainmask |= 2; do_cancel(a.r); }
-      else { shm->cleanups_mid++; cleanup(); }
-      g.trace.push_back(0xfe000000u | a.k << 8 | a.r);
-    }
-    int k = 0; out.alive_at[0] = (uint8_t)alive_mask();
-    if (!cleaned) {
-      while (!quiescent() && npass < MAXPASS) { pass(); k++; out.alive_at[k] = (uint8_t)alive_mask(); }
-      if (!quiescent()) viol("no-quiescence-within-40-passes");
-    }
+    // The main context acts from a deferred call that is first in every loop iteration (it is queued before the routines are created
+    // and re-queues itself before the scheduler's own deferred calls of that iteration run), i.e. at EVERY boundary between two scheduler
+    // rounds. runLoop(kOnce) cannot be used for this: leaving runLoop() drains all deferred calls, i.e. runs the scheduler until it is idle.
+    std::function<void()> driver = [&] {
+      shm->phase = PH_PASS;
+      if (!first) g.trace.push_back(0xff000000u);
+      first = false;
+      if (quiescent()) qcheck(); else model_check();
+      while (!tail && ai < sched.size() && sched[ai].k != A_PASS && !cleaned) {
+        const Act &a = sched[ai++];
+        shm->phase = PH_ACTION; shm->transitions++;
+        if (a.k == A_RESUME) { g.mainmask |= 1; if (g.R[a.r].created) sch.resume(g.R[a.r].tok); }
+        else if (a.k == A_CANCEL) { g.mainmask |= 2; do_cancel(a.r); }
+        else { shm->cleanups_mid++; cleanup(); }
+        g.trace.push_back(0xfe000000u | a.k << 8 | a.r);
+        shm->phase = PH_PASS;
+      }
+      if (cleaned) { out.alive_at[0] = 0; loop->exitLoop(); return; }
+      if (ai < sched.size()) { ai++; npass++; shm->transitions++; loop->runNext(driver); return; }   // a `pass`: let one scheduler round happen
+      tail = true;                                                                                 // schedule used up: go on until idle
+      out.alive_at[k] = (uint8_t)alive_mask();
+      if (quiescent() || npass >= MAXPASS) { loop->exitLoop(); return; }
+      k++; npass++; shm->transitions++; loop->runNext(driver);
+    };
+    loop->runNext(driver);
+    for (int r = 0; r < p.nr; r++) spawn(p.s[r]);
+    loop->runLoop(event::Loop::Mode::kForever);
+    if (!cleaned && !quiescent()) viol("no-quiescence-within-40-passes");
     out.tail_passes = k; out.cleaned = cleaned;
     // outcome class of the idle state reached (before the final cleanup)
     { int fin = 0, fl = 0, sus[NOPS] = {0}; for (int r = 0; r < g.nrt; r++) { RInfo &X = g.R[r]; if (X.finished) { X.failed ? fl++ : fin++; } else if (X.blocked >= 0) sus[X.blocked]++; }
